@@ -214,7 +214,43 @@ def r4_batch_builder(ctx):
         R.check(cont is not None and ins.dominates(cont, ps[0].bb), "C20.R4", "batch-insert:push-only-on-success", "an entry is stored only when its params serialised", "a batch entry is stored although its params failed to serialise", where(ps[0]))
 
 
-RULES = [r1_rollback, r2_build, r3_impls, r4_batch_builder]
+
+def r5_builders_wrap_their_own_kind(ctx):
+    """every way of creating an ObjectParams gives it the `{`..`}` builder and every way of creating an ArrayParams the
+    `[`..`]` one (new(), Default, Clone of such a value): ObjectParams always writes `"name":value` pairs, so on a
+    positional builder the first insert already produces invalid JSON and build() panics"""
+    F, R = ctx.F, ctx.R
+    tr = ctx.tracer(follow_callers=False, follow_fields=False, inline_calls=False)
+    n = 0
+    for ty, ctor in (("ObjectParams", "named"), ("ArrayParams", "positional")):
+        for b in F.real_bodies():
+            if b.crate != CORE or is_test_body(b):
+                continue
+            for bi, blk in enumerate(b.blocks):
+                if blk.get("cleanup") or bi not in b.reachable:
+                    continue
+                for st in blk["st"]:
+                    if st["s"] == "assign" and st["rv"]["k"] == "agg" and st["rv"].get("adt") == "jsonrpsee_core::params::%s" % ty:
+                        if b.path.endswith("::clone") and (b.impl_trait or "").endswith("Clone"):
+                            continue
+                        n += 1
+                        R.fn(b)
+                        lv = tr.origins(b, st["rv"]["ops"][0])
+                        # look through one crate-local wrapper (e.g. a `Default for ParamsBuilder` that picks a kind)
+                        flat = []
+                        for l in lv:
+                            tgt = F.bodies.get(l.detail.get("callee") or "") if l.kind == "call" else None
+                            if tgt is not None and tgt.crate == CORE and not re.search(r"ParamsBuilder::(named|positional|new)$", tgt.path):
+                                flat += tr.origins(tgt, {"cp": {"l": 0}})
+                            else:
+                                flat.append(l)
+                        lv = flat
+                        ok = bool(lv) and all(l.kind == "call" and re.search(r"params_builder::ParamsBuilder::%s$" % ctor, l.detail["callee"] or "") for l in lv)
+                        R.check(ok, "C20.R5", "%s:%s" % (ty, fkey(b)), "%s wraps ParamsBuilder::%s()" % (short(b.path), ctor), "%s creates an %s around %s instead of ParamsBuilder::%s(): the first insert then yields invalid JSON and build() panics" % (short(b.path), ty, [flow.leaf_str(l)[:70] for l in lv], ctor), "%s:%d" % (b.file, st["sp"][0]))
+    R.floor("C20.R5", n, 2, "constructions of ObjectParams / ArrayParams")
+
+
+RULES = [r1_rollback, r2_build, r3_impls, r4_batch_builder, r5_builders_wrap_their_own_kind]
 
 LEVEL_TEXT = (
     "Structural necessary conditions decided from the type-checked program: rollback on every error exit of both insert "
